@@ -268,3 +268,139 @@ def m2_function(unit, fn, report):
             n_sites += 1
             report(derived[r], unit.loc(n.get("loc")))
     return n_sites
+
+
+# --------------------------------------------------------------------------------------------
+MUTATING_ALGOS = {"std::reverse", "std::sort", "std::stable_sort", "std::rotate", "std::remove", "std::remove_if", "std::unique",
+                  "std::iter_swap", "std::fill", "std::fill_n", "std::generate", "std::partition", "std::stable_partition",
+                  "std::shuffle", "std::swap_ranges", "std::inplace_merge", "std::nth_element", "std::partial_sort",
+                  "std::make_heap", "std::push_heap", "std::pop_heap", "std::sort_heap", "std::next_permutation", "std::prev_permutation"}
+MUTATING_METHODS = {"push_back", "emplace_back", "push_front", "emplace_front", "pop_back", "pop_front", "erase", "clear", "insert",
+                    "emplace", "resize", "assign", "swap", "sort", "reverse", "splice", "merge", "remove", "remove_if", "unique",
+                    "operator=", "operator+=", "reset", "release", "extract"}
+
+
+def strip_ref(t):
+    t = (t or "").strip()
+    while t.endswith("&"):
+        t = t[:-1].strip()
+    if t.startswith("const "):
+        t = t[6:]
+    return t.replace(" >", ">").strip()
+
+
+def fwd_params_in_scope(fn):
+    """forwarding-reference parameters visible in fn: its own and those of enclosing functions (captured)"""
+    out = {}
+    f = fn
+    while f is not None:
+        for p in f.get("params", []):
+            if p.get("fwd"):
+                out[p["id"]] = (p, f)
+        f = f.get("_parent")
+    return out
+
+
+def proj_root(unit, n, fwd, depth=0):
+    """root variable of n, also through free PROJECTIONS: a call returning a reference whose only argument rooted in
+    a forwarding parameter is that parameter (fcppt::array::get<I>(_a), std::get<I>(_t), fcppt::record::get<L>(_r))"""
+    r = G.root_of(unit, n)
+    if r is not None or depth > 3:
+        return r
+    n = T.unwrap(unit, n)
+    if n is None or n.get("k") != "call":
+        return None
+    d = T.callee_decl(unit, n)
+    if d is None:
+        return None
+    rt = (unit.ty(d.get("ret")) or "").strip()
+    if not rt.endswith("&"):
+        return None
+    roots = set()
+    for a in ([n["recv"]] if n.get("recv") is not None else []) + list(n.get("args", [])):
+        ra = proj_root(unit, a, fwd, depth + 1)
+        if ra in fwd:
+            roots.add(ra)
+    return roots.pop() if len(roots) == 1 else None
+
+
+def m5_function(unit, fn, report):
+    """move_if_rvalue<X>(e) / std::forward<X>(e) / move_iterator_if_rvalue<X>(it): X must be the type of the
+    forwarding parameter e is rooted in (same value category). Returns number of checked sites."""
+    fwd = fwd_params_in_scope(fn)
+    if not fwd:
+        return 0
+    n_sites = 0
+    for n in F.walk(fn.get("body"), into_lambdas=False):
+        if n.get("k") != "call":
+            continue
+        d = T.callee_decl(unit, n)
+        if d is None:
+            continue
+        qn = F.strip_targs(d["qn"])
+        if qn not in ("fcppt::move_if_rvalue", "std::forward") or not n.get("args"):
+            continue
+        r = proj_root(unit, n["args"][0], fwd)
+        if r not in fwd:
+            continue
+        p, owner = fwd[r]
+        if owner.get("lambda"):
+            continue   # `auto &&element` of a callback: forwarded with the enclosing RANGE's category by design
+        X = (d.get("targs") or [None])[0]
+        if X is None:
+            continue
+        pt = unit.ty(p["t"]) or ""
+        n_sites += 1
+        x_l = X.strip().endswith("&") and not X.strip().endswith("&&")
+        p_l = p["ref"] in ("lref", "clref")
+        if strip_ref(X) != strip_ref(pt):
+            # another template parameter of the same shape: only a defect if the category differs
+            if x_l != p_l:
+                report(p["name"], unit.loc(n.get("loc")), X, pt)
+        elif x_l != p_l:
+            report(p["name"], unit.loc(n.get("loc")), X, pt)
+    return n_sites
+
+
+def iter_root(unit, a):
+    """root of an iterator/range argument: x, x.begin(), std::begin(x), fcppt::range::begin(x), ..."""
+    r = G.root_of(unit, a)
+    if r is not None:
+        return r
+    a = T.unwrap(unit, a)
+    if a is not None and a.get("k") == "call":
+        d = T.callee_decl(unit, a)
+        short = F.strip_targs(d["qn"]).split("::")[-1] if d else None
+        if short in ("begin", "end", "rbegin", "rend", "data"):
+            src = a.get("recv") if a.get("recv") is not None else (a.get("args") or [None])[0]
+            return G.root_of(unit, src) if src is not None else None
+    return None
+
+
+def m6_function(unit, fn, report):
+    """a forwarding parameter instantiated as a NON-CONST LVALUE reference must not be modified"""
+    fwd = {i: (p, o) for i, (p, o) in fwd_params_in_scope(fn).items() if p["ref"] == "lref"}
+    if not fwd:
+        return 0
+    n = 0
+    for node in F.walk(fn.get("body"), into_lambdas=False):
+        if node.get("k") != "call":
+            continue
+        d = T.callee_decl(unit, node)
+        if d is None:
+            continue
+        qn = F.strip_targs(d["qn"])
+        short = qn.split("::")[-1]
+        if qn in MUTATING_ALGOS:
+            for a in node.get("args", []):
+                r = iter_root(unit, a)
+                if r in fwd:
+                    n += 1
+                    report(fwd[r][0]["name"], unit.loc(node.get("loc")), "%s over its elements" % qn)
+                    break
+        elif node.get("recv") is not None and short in MUTATING_METHODS and not d.get("const", True):
+            rv = T.unwrap(unit, node["recv"])
+            if rv is not None and rv.get("k") == "ref" and rv.get("id") in fwd:
+                n += 1
+                report(fwd[rv["id"]][0]["name"], unit.loc(node.get("loc")), "%s() on it" % short)
+    return len(fwd)
